@@ -240,6 +240,8 @@ def rule_cmp_normalise(ctx: Ctx) -> None:
 
 
 def run(ctx: Ctx) -> None:
+    from .c12 import rule_nodekeys
+    rule_nodekeys(ctx)  # the label index these functions query (wrapper / identity / gate labels) is maintained by add/remove/replace
     rule_cmp_fields(ctx)
     rule_cmp_roles(ctx)
     rule_cmp_normalise(ctx)
